@@ -140,3 +140,84 @@ Proof.
   intros Hx Hy E. pose proof (split16_denote_spec x Hx) as A. rewrite E, (split16_denote_spec y Hy) in A.
   congruence.
 Qed.
+
+(* ---------------- the decoders compute the specification's meaning on
+   EVERY well-formed stream (canonical or not), at any address ---------------- *)
+Ltac open_level :=
+  let EL := fresh "EL" in let EV := fresh "EV" in let HX := fresh "HX" in
+  cbv beta iota; cbn [lv_nbytes lv_kind_of lv_base];
+  match goal with |- context [(length ?r =? ?n)%nat] => destruct (length r =? n)%nat eqn:EL end;
+  [|discriminate]; apply Nat.eqb_eq in EL;
+  match goal with |- context [if ?v <=? U64MAX then _ else _] => destruct (v <=? U64MAX) eqn:EV end;
+  [|discriminate];
+  intro HX; apply some_inj in HX; unfold U64MAX in EV.
+
+Ltac fin_ext lemma :=
+  open_level;
+  match goal with H : (?b0 =? _) = true |- _ => apply N.eqb_eq in H; subst b0 end;
+  match goal with
+  | EL : length ?rest = ?k, Hr : bytes_ok ?rest |- context [split_get_at (?pre ++ _ ++ ?tl) _] =>
+      let A := fresh "A" in
+      destruct (lemma pre tl k rest) as (A & _); [lia | exact EL | exact Hr | lia |];
+      cbn [N.of_nat Pos.of_succ_nat Pos.succ N.add Pos.add] in A; rewrite A;
+      cbn [length]; rewrite EL; subst; f_equal; f_equal; lia
+  | EL : length ?rest = ?k, Hr : bytes_ok ?rest |- context [split16_get_at (?pre ++ _ ++ ?tl) _] =>
+      let A := fresh "A" in
+      destruct (lemma pre tl k rest) as (A & _); [lia | exact EL | exact Hr | lia |];
+      cbn [N.of_nat Pos.of_succ_nat Pos.succ N.add Pos.add] in A; rewrite A;
+      cbn [length]; rewrite EL; subst; f_equal; f_equal; lia
+  end.
+
+Theorem split_get_denote pre b tl x : bytes_ok b -> split_denote b = Some x ->
+  split_get_at (pre ++ b ++ tl) (Z.of_nat (length pre)) = Some (N.of_nat (length b), x).
+Proof.
+  intro Hb. destruct b as [|b0 rest]; [discriminate|].
+  assert (Hrest : bytes_ok rest) by (inversion Hb; assumption). clear Hb.
+  unfold split_denote, lv_denote. rewrite lv_match_split.
+  step.
+  { open_level. destruct rest; [|discriminate]. subst x. cbn [of_be of_le rev]. norm256.
+    destruct (split_get_embed0 pre tl b0) as (A & _); [lia|]. cbn [app] in A |- *. rewrite A.
+    f_equal. f_equal. lia. }
+  step.
+  { open_level. destruct rest as [|r [|]]; try discriminate. subst x.
+    unfold of_be. cbn [of_le rev app]. norm256.
+    assert (Hr : r < 256) by (inversion Hrest; assumption).
+    replace b0 with (64 + b0 mod 64) at 1 by lia.
+    destruct (split_get_embed1 pre tl (b0 mod 64) r) as (A & _); [lia|lia|]. cbn [app] in A |- *. rewrite A.
+    f_equal. f_equal. lia. }
+  do 8 (step; [fin_ext split_get_var|]).
+  discriminate.
+Qed.
+
+Theorem split16_get_denote pre b tl x : bytes_ok b -> split16_denote b = Some x ->
+  split16_get_at (pre ++ b ++ tl) (Z.of_nat (length pre)) = Some (N.of_nat (length b), x).
+Proof.
+  intro Hb. destruct b as [|b0 rest]; [discriminate|].
+  assert (Hrest : bytes_ok rest) by (inversion Hb; assumption). clear Hb.
+  unfold split16_denote, lv_denote. rewrite lv_match_split16.
+  step.
+  { open_level. destruct rest as [|r [|]]; try discriminate. subst x.
+    unfold of_be. cbn [of_le rev app]. norm256.
+    assert (Hr : r < 256) by (inversion Hrest; assumption).
+    destruct (split16_get_0 pre tl b0 r) as (A & _); [lia|lia|]. cbn [app] in A |- *. rewrite A.
+    f_equal. f_equal. lia. }
+  step.
+  { open_level. destruct rest as [|r [|s [|]]]; try discriminate. subst x.
+    unfold of_be. cbn [of_le rev app]. norm256.
+    assert (Hr : r < 256) by (inversion Hrest; assumption).
+    assert (Hs : s < 256) by (inversion Hrest as [|? ? ? H2]; inversion H2; assumption).
+    replace b0 with (64 + b0 mod 64) at 1 by lia.
+    destruct (split16_get_1 pre tl (b0 mod 64) r s) as (A & _); [lia|lia|lia|]. cbn [app] in A |- *. rewrite A.
+    f_equal. f_equal. lia. }
+  step.
+  { open_level. destruct rest as [|r [|s [|t [|]]]]; try discriminate. subst x.
+    unfold of_be. cbn [of_le rev app]. norm256.
+    assert (Hr : r < 256) by (inversion Hrest; assumption).
+    assert (Hs : s < 256) by (inversion Hrest as [|? ? ? H2]; inversion H2; assumption).
+    assert (Ht : t < 256) by (inversion Hrest as [|? ? ? H2]; inversion H2 as [|? ? ? H3]; inversion H3; assumption).
+    replace b0 with (128 + b0 mod 64) at 1 by lia.
+    destruct (split16_get_2 pre tl (b0 mod 64) r s t) as (A & _); [lia|lia|lia|lia|]. cbn [app] in A |- *. rewrite A.
+    f_equal. f_equal. lia. }
+  do 5 (step; [fin_ext split16_get_var|]).
+  discriminate.
+Qed.
